@@ -1,4 +1,5 @@
 import Obao.Proofs.WrapOnce
+import Obao.Model.WrapNs
 /-!
 C18 — a response-wrapping token reveals its payload exactly once.
 
@@ -224,5 +225,40 @@ example : let kinds := [Kind.unwrap1, .unwrap3, .cubby, .lookup3]
 example : let s := run [0, 0, 0, 0, 0, 0, 0, 0, 0, 0, 0, 0, 0, 0, 0, 0] (wrapInit [.rewrap3])
     s.pcs[0]? = some (.done (some true) .rewrapped) ∧ s.sh.gone = true ∧ s.sh.payload = false ∧ s.sh.info = false := by
   decide
+
+/-! ### across namespaces: "…exactly once, after which the token and its stored payload no longer exist" -/
+section Ns
+open Obao.WrapNs
+
+/-- **unwrap_across_namespaces_consumes.** Whatever the namespace the third party acts in: a successful unwrap removes
+the wrapping token and its payload, so a second unwrap — through any namespace — reveals nothing; entries of other
+tokens are untouched. -/
+theorem unwrap_across_namespaces_consumes (s : Obao.WrapNs.St) (reqNs reqNs' tokNs id : Nat)
+    (h : (unwrap3 s reqNs tokNs id).2 = true) :
+    (tokNs, id) ∉ (unwrap3 s reqNs tokNs id).1.toks ∧ (tokNs, id) ∉ (unwrap3 s reqNs tokNs id).1.payloads ∧
+    (unwrap3 (unwrap3 s reqNs tokNs id).1 reqNs' tokNs id).2 = false ∧
+    ∀ e, e ≠ (tokNs, id) → (e ∈ (unwrap3 s reqNs tokNs id).1.toks ↔ e ∈ s.toks) := by
+  unfold unwrap3 at h ⊢
+  split at h
+  · rename_i hc
+    simp only [hc, and_self, if_true]
+    have h1 : (tokNs, id) ∉ (revokeIn s tokNs id).toks := by simp [revokeIn]
+    have h2 : (tokNs, id) ∉ (revokeIn s tokNs id).payloads := by simp [revokeIn]
+    refine ⟨h1, h2, ?_, ?_⟩
+    · simp [h1]
+    · intro e he; simp [revokeIn, he]
+  · simp at h
+
+/-- live: wrapped in namespace 1, unwrapped through the root namespace (0) -/
+example : (unwrap3 { toks := [(1, 7)], payloads := [(1, 7)] } 0 1 7).2 = true := by decide
+
+/-- **seeded change C18-4 is a violation**: revoked in the REQUEST's namespace the token wrapped in namespace 1 and
+unwrapped through the root namespace hands out its payload and stays, with its payload, in the store. -/
+theorem unwrap_revoke_in_request_ns_cex :
+    ∃ (s : Obao.WrapNs.St) (reqNs tokNs id : Nat), (unwrap3InReqNs s reqNs tokNs id).2 = true ∧
+      (tokNs, id) ∈ (unwrap3InReqNs s reqNs tokNs id).1.toks ∧ (tokNs, id) ∈ (unwrap3InReqNs s reqNs tokNs id).1.payloads :=
+  ⟨{ toks := [(1, 7)], payloads := [(1, 7)] }, 0, 1, 7, by decide, by decide, by decide⟩
+
+end Ns
 
 end C18
